@@ -1,6 +1,7 @@
 //! conform: the conformance harness binding the TLA+ specification suite to reval's public API.
 //!   conform selftest
 //!   conform replay <engine> <tlc-output-or-ndjson> <report.json>
+mod conv;
 mod exec;
 mod model;
 mod ops;
@@ -8,6 +9,7 @@ mod parse;
 mod print;
 mod report;
 mod scenario;
+mod ser;
 
 use serde_json::Value as J;
 use std::io::{BufRead, BufReader};
@@ -130,6 +132,8 @@ fn run(args: &[String]) -> Result<i32, String> {
                                         "prog" => scenario::replay_prog(case, &mut rep),
                                         "scenario" => scenario::replay_scenario(case, &mut rep),
                                         "parse" => parse::replay_parse(case, &mut rep),
+                                        "ser" => ser::replay_ser(case, &mut rep),
+                                        "conv" => conv::replay_conv(case, &mut rep),
                                         _ => rep.tool_error(format!("unknown engine {engine}")),
                                     }
                                 }
